@@ -1361,6 +1361,7 @@ type c09DivReplay struct {
 	Got       string       `json:"got,omitempty"`
 	Baseline  string       `json:"yao_baseline,omitempty"`
 	Alone     string       `json:"stand_alone_gmw_divider,omitempty"`
+	Committed string       `json:"committed_algorithm,omitempty"`
 	Want      string       `json:"arithmetic,omitempty"`
 	Failing   int          `json:"failing_vectors,omitempty"`
 	Vectors   int          `json:"vectors,omitempty"`
@@ -1384,8 +1385,12 @@ func c09Divs(c *Ctx) error {
 	one := func(op string, signed bool, w int) c09DivSpec { return c09DivSpec{Op: op, Signed: signed, W: w} }
 	ops := []string{"/", "%"}
 	// single divisions (the stand-alone dividers themselves; uint7 % is exhaustive)
-	progs = append(progs, []c09DivSpec{one("%", false, 7)}, []c09DivSpec{one("/", true, 8)},
-		[]c09DivSpec{one("/", false, 16), one("%", false, 16)})
+	// (uint7 %, uint6 /, int5 / are exhaustive; 24 is a non-power-of-two width with directed
+	// small divisors 1, 2, 3, 255, 256)
+	progs = append(progs, []c09DivSpec{one("%", false, 7)}, []c09DivSpec{one("/", false, 6)},
+		[]c09DivSpec{one("/", true, 5)}, []c09DivSpec{one("/", true, 8)},
+		[]c09DivSpec{one("/", false, 16), one("%", false, 16)},
+		[]c09DivSpec{one("/", false, 24)}, []c09DivSpec{one("/", true, 24), one("%", false, 6)})
 	// two divisions of different widths, both orders, in every run
 	core := [][2]int{{12, 6}, {6, 12}, {9, 3}, {3, 9}, {16, 8}, {8, 16}, {5, 6}, {6, 5}, {9, 8}, {8, 12}}
 	for k, p := range core {
@@ -1482,7 +1487,7 @@ func c09Divs(c *Ctx) error {
 		}
 		// input vectors
 		var xs [][]bool
-		if total <= 16 {
+		if total < 16 || (total == 16 && c.Thorough()) {
 			for v := 0; v < 1<<uint(total); v++ {
 				x := make([]bool, total)
 				for b := 0; b < total; b++ {
@@ -1515,6 +1520,12 @@ func c09Divs(c *Ctx) error {
 							a[i], b[i] = i != 0 || r.Bool(), i == 0
 						case 5: // large / mid
 							a[i], b[i] = i >= d.W/2 || r.Bool(), i < (d.W+1)/2 && (i == 0 || r.Bool())
+						case 6, 7, 8, 9, 10: // large or random dividend / small divisor 1, 2, 3, 255, 256
+							small := []uint64{1, 2, 3, 255, 256}[mode-6]
+							if d.W < 63 && small >= 1<<uint(d.W-1) {
+								small = small%(1<<uint(d.W-1)) + 1
+							}
+							a[i], b[i] = (k < 24 && i >= d.W-2) || r.Bool(), small>>uint(i)&1 == 1
 						default:
 							a[i], b[i] = r.Bool(), r.Bool()
 						}
@@ -1663,8 +1674,33 @@ func c09Divs(c *Ctx) error {
 						note("c09:prog:division:known-divide-by-zero-difference:"+d.tag()+":Yao-vs-GMW",
 							"division by zero: the GMW divider (also stand-alone) and the Yao divider return different values", rp)
 					default:
-						note("c09:prog:division:known-divider-inaccuracy:"+d.tag()+":Yao-vs-GMW",
-							"the GMW Goldschmidt divider (also stand-alone, same operands) is wrong for this non-zero divisor", rp)
+						// second discriminator: the word-level transcription of the COMMITTED
+						// Goldschmidt algorithm (harness/c07gmw.go, validated by C07 against the
+						// real circuit): only a result that is exactly what the committed
+						// algorithm computes for (width, a, b) is the known inaccuracy
+						av := new(big.Int).SetUint64(c09BitsToUint(a))
+						bv := new(big.Int).SetUint64(c09BitsToUint(b))
+						var pq, pr *big.Int
+						if d.Signed {
+							pq, pr = c07IDivPredictGMW(d.W, av, bv)
+						} else {
+							pq, pr = c07GoldschmidtPredict(d.W, av, bv)
+						}
+						pred := pq
+						if d.Op == "%" {
+							pred = pr
+						}
+						if pred != nil && pred.IsUint64() && pred.Uint64() == c09BitsToUint(got[i]) {
+							note("c09:prog:division:known-divider-inaccuracy:"+d.tag()+":Yao-vs-GMW",
+								"the GMW Goldschmidt divider is wrong for this non-zero divisor, exactly as the committed algorithm computes it (also stand-alone)", rp)
+						} else {
+							if pred != nil {
+								rp.Committed = pred.String()
+							}
+							note("c09:prog:division:differs-from-committed-algorithm:"+d.tag()+":"+d.Op,
+								fmt.Sprintf("the GMW divider returns %s for %s %s %s at width %s: neither the Yao result %s nor what the committed Goldschmidt algorithm computes (%s)",
+									rp.Got, rp.A, d.Op, rp.B, d.tag(), rp.Baseline, rp.Committed), rp)
+						}
 					}
 				}
 			}
@@ -1676,7 +1712,12 @@ func c09Divs(c *Ctx) error {
 			for _, kk := range keys {
 				f := found[kk]
 				f.rp.Failing = f.n
-				c.Fail(f.key, f.what, f.rp)
+				key := f.key
+				if strings.HasPrefix(key, "c09:prog:division:differs-from-committed-algorithm:") {
+					key = fmt.Sprintf("c09:prog:division:differs-from-committed-algorithm:%s:%s%s%s",
+						specs[f.rp.Component].tag(), f.rp.A, specs[f.rp.Component].Op, f.rp.B)
+				}
+				c.Fail(key, f.what, f.rp)
 			}
 		}
 	}
